@@ -241,6 +241,10 @@ def _layer(ctx, desc):
     for t in range(desc["T"]):
         if desc["layer"] == "biclique":
             x = {k: (_per_sample_inputs(g, B, c.inshape, 1, [0.3, 0.6, 0.9], as_bool=True)[0],) for k, c in pb.conns.items()}
+            if t % 3 == 2:
+                # documented: only the connections named in the inputs run on that call - here a single one
+                x = {k: x[k] for k in sorted(x)[:1]}
+                ctx.count("single_connection_biclique_steps")
             xs = [{k: (v[0][b:b + 1],) for k, v in x.items()} for b in range(B)]
         else:
             first = pb.conns["serial" if desc["layer"] == "serial" else "feedfwd"]
